@@ -8,6 +8,7 @@ parameter produce an event log per fit() call; an automaton checks it against th
 bit-identical parameters and the same history.
 """
 import copy
+import io
 
 import numpy as np
 import torch
@@ -43,7 +44,7 @@ ANCHORS = ['pfhedge.nn.modules.hedger:Hedger.fit',
            'pfhedge._utils.operations:ensemble_mean']
 DECIDING = ["trace.automaton", "reference.parameters", "reference.history", "steps.count"]
 REQUIRED_BRANCHES = ["criterion_with_parameters.optimizer_instance_over_hedger", "k=0", "k>=2", "validation.off", "n_times>1", "optimizer.class", "optimizer.instance", "model.lazy", "model.dropout", "stale_grad",
-                     "init_state.given"]
+                     "init_state.given", "verbose.on.validation.off", "second_fit.class", "second_fit.instance"]
 
 _CTX = None
 _TRACE = []  # stack of active traces
@@ -164,10 +165,12 @@ def make_opt(kind, hedger):
     raise ValueError(kind)
 
 
-def reference(hedger, derivative, hedge, k, n, m, opt_kind, s, v):
-    """The protocol, written out with the public API."""
+def reference(hedger, derivative, hedge, k, n, m, opt_kind, s, v, opt=None):
+    """The protocol, written out with the public API.  Returns (history, optimiser used)."""
     crit = hedger.criterion
-    if opt_kind in ("default", "adam_class", "sgd_class", "adadelta_class"):
+    if opt is not None:
+        pass  # the caller's optimiser instance, carried over from the previous fit
+    elif opt_kind in ("default", "adam_class", "sgd_class", "adadelta_class"):
         if has_lazy(hedger):
             derivative.simulate(n_paths=1)
             _ = hedger.compute_pl(derivative, hedge)
@@ -192,7 +195,7 @@ def reference(hedger, derivative, hedge, k, n, m, opt_kind, s, v):
                     vals.append(crit(hedger.compute_portfolio(derivative, hedge), derivative.payoff()))
                 val = vals[0] if m == 1 else torch.stack(vals).mean(dim=0)
             hist.append(val.item())
-    return hist if v else None
+    return (hist if v else None), opt
 
 
 def check_trace(ctx, tr, k, n, m, s, v, lazy_prefix, sig):
@@ -253,6 +256,24 @@ def drv_fit(ctx, k_, rng):
 
         hedger.criterion = OCE(_oce_utility)
         opt_kind, k = "sgd_inst", max(k, 1)
+    verbose = bool(rng.random() < 0.3)
+    if k_ % 12 == 7:
+        # deterministic coverage of: progress display on, validation off (the display must not bring the validation pass back)
+        v, verbose, k = False, True, max(k, 2)
+    if verbose:
+        ctx.branch("verbose.on" if v else "verbose.on.validation.off")
+    second = False
+    # a second fit() on the same hedger (training continued): an optimiser class is instantiated again, an instance carries its own state over
+    calls = [k]
+    if (k >= 1 and rng.random() < 0.35) or k_ % 12 == 9:
+        k = max(k, 1)
+        calls = [k, int(pick(rng, [1, 2]))]
+        if k_ % 24 == 9:
+            opt_kind = "default"
+        elif k_ % 24 == 21:
+            opt_kind = "adam_inst"
+        ctx.branch("second_fit." + ("instance" if opt_kind.endswith("inst") else "class"))
+        second = True
     lazy = mk == "lazy"
     ctx.branch("k=0" if k == 0 else ("k>=2" if k >= 2 else "k=1"))
     if not v:
@@ -284,58 +305,61 @@ def drv_fit(ctx, k_, rng):
     mode0 = pick(rng, ["train", "eval"])
     for h_ in (hedger, ref):
         h_.train() if mode0 == "train" else h_.eval()
-    seed = int(rng.integers(1 << 30))
-    sig = (k, m, v, opt_kind, mk, s is not None, stale, hk)
-    # ---- traced fit ----
-    tr = Trace(hedger)
-    tr.pver()
-    hp = hedger.criterion.register_forward_pre_hook(lambda mod, inp: tr.add("CRIT", grad=torch.is_grad_enabled(), hedger_training=hedger.training,
-                                                                           model_training=hedger.model.training, batch=int(inp[0].shape[0])))
-
-    def post(mod, inp, out):
-        if out.requires_grad:
-            out.register_hook(lambda g: tr.add("BWD"))
-
-    hq = hedger.criterion.register_forward_hook(post)
+    sig = (k, m, v, opt_kind, mk, s is not None, stale, hk, verbose, len(calls))
     opt = make_opt(opt_kind, hedger)
-    torch.manual_seed(seed)
-    _TRACE.append(tr)
-    try:
-        kw = {} if opt is None else {"optimizer": opt}
-        hist = hedger.fit(derivative, hedge, n_epochs=k, n_paths=n, n_times=m, init_state=s, verbose=False, validation=v, **kw)
-    finally:
-        _TRACE.pop()
-        hp.remove()
-        hq.remove()
-    ok = check_trace(ctx, tr, k, n, m, s, v, lazy and not opt_kind.endswith("inst"), sig)
-    mon = "steps.count"
-    ctx.seen(mon)
-    steps = sum(1 for e in tr.events if e["kind"] == "STEP_END")
-    ctx.check(mon, steps == k, "step_count", f"{steps} optimizer steps for n_epochs={k}", sig=sig)
-    # ---- reference loop under the same seed ----
-    ref_opt_kind = opt_kind
-    if opt_kind.endswith("inst"):
-        # an instance bound to `hedger`'s parameters cannot drive `ref`; build the equivalent one for ref inside reference()
-        pass
-    torch.manual_seed(seed)
-    hist_ref = reference(ref, derivative, hedge, k, n, m, ref_opt_kind, s, v)
-    mon = "reference.parameters"
-    ctx.seen(mon)
-    pa, pb = list(hedger.parameters()), list(ref.parameters())
-    same = len(pa) == len(pb) and all(a.shape == b.shape and torch.equal(a, b) for a, b in zip(pa, pb))
-    if not same:
-        worst = max((float((a - b).abs().max()) for a, b in zip(pa, pb) if a.shape == b.shape), default=float("nan"))
-        ctx.violation(mon, "parameters_differ", f"parameters after fit() differ from the explicit simulate/loss/backward/step loop under the same seed "
-                      f"(max |diff| {worst!r}; n_epochs={k}, optimiser {opt_kind}, model {mk}, stale grads {stale})", sig=sig, max_abs_diff=worst)
-    else:
-        ctx.ok(mon, sig=sig, trivial=(k == 0))
-    mon = "reference.history"
-    ctx.seen(mon)
-    if v:
-        okh = isinstance(hist, list) and len(hist) == k and hist_ref is not None and all(a == b or (a != a and b != b) for a, b in zip(hist, hist_ref))
-    else:
-        okh = hist is None
-    ctx.check(mon, okh, "history", f"fit history {hist} vs reference {hist_ref} (validation={v}, n_epochs={k})", sig=sig, trivial=(k == 0))
+    ref_opt = None
+    hist = hist_ref = None
+    tr = None
+    for ci, kc in enumerate(calls):
+        seed = int(rng.integers(1 << 30))
+        # ---- traced fit ----
+        tr = Trace(hedger)
+        tr.pver()
+        hp = hedger.criterion.register_forward_pre_hook(lambda mod, inp: tr.add("CRIT", grad=torch.is_grad_enabled(), hedger_training=hedger.training,
+                                                                               model_training=hedger.model.training, batch=int(inp[0].shape[0])))
+
+        def post(mod, inp, out):
+            if out.requires_grad:
+                out.register_hook(lambda g: tr.add("BWD"))
+
+        hq = hedger.criterion.register_forward_hook(post)
+        torch.manual_seed(seed)
+        _TRACE.append(tr)
+        try:
+            kw = {} if opt is None else {"optimizer": opt}
+            if verbose:
+                kw["tqdm_kwargs"] = {"file": io.StringIO()}
+            hist = hedger.fit(derivative, hedge, n_epochs=kc, n_paths=n, n_times=m, init_state=s, verbose=verbose, validation=v, **kw)
+        finally:
+            _TRACE.pop()
+            hp.remove()
+            hq.remove()
+        check_trace(ctx, tr, kc, n, m, s, v, lazy and ci == 0 and not opt_kind.endswith("inst"), sig)
+        mon = "steps.count"
+        ctx.seen(mon)
+        steps = sum(1 for e in tr.events if e["kind"] == "STEP_END")
+        ctx.check(mon, steps == kc, "step_count", f"{steps} optimizer steps for n_epochs={kc} (fit call #{ci + 1})", sig=sig)
+        # ---- reference loop under the same seed ----
+        torch.manual_seed(seed)
+        hist_ref, ref_opt = reference(ref, derivative, hedge, kc, n, m, opt_kind, s, v, ref_opt if opt_kind.endswith("inst") else None)
+        mon = "reference.parameters"
+        ctx.seen(mon)
+        pa, pb = list(hedger.parameters()), list(ref.parameters())
+        same = len(pa) == len(pb) and all(a.shape == b.shape and torch.equal(a, b) for a, b in zip(pa, pb))
+        if not same:
+            worst = max((float((a - b).abs().max()) for a, b in zip(pa, pb) if a.shape == b.shape), default=float("nan"))
+            ctx.violation(mon, "parameters_differ", f"parameters after fit() call #{ci + 1} differ from the explicit simulate/loss/backward/step loop under the same "
+                          f"seed (max |diff| {worst!r}; n_epochs={kc}, optimiser {opt_kind}, model {mk}, stale grads {stale}, verbose={verbose}, validation={v})",
+                          sig=sig, max_abs_diff=worst, call=ci + 1)
+            break
+        ctx.ok(mon, sig=sig, trivial=(kc == 0))
+        mon = "reference.history"
+        ctx.seen(mon)
+        if v:
+            okh = isinstance(hist, list) and len(hist) == kc and hist_ref is not None and all(a == b or (a != a and b != b) for a, b in zip(hist, hist_ref))
+        else:
+            okh = hist is None
+        ctx.check(mon, okh, "history", f"fit history {hist} vs reference {hist_ref} (validation={v}, n_epochs={kc}, call #{ci + 1})", sig=sig, trivial=(kc == 0))
     if k_ < 4:
         ctx.sample({"driver": "fit", "n_epochs": k, "n_paths": n, "n_times": m, "validation": v, "optimizer": opt_kind, "model": mk, "init_state": s,
                     "stale_grad": stale, "trace": [e["kind"] for e in tr.events][:40], "history": hist})
